@@ -20,6 +20,8 @@ RULE = (
     "path. Components: lsig / app (own `txn F` checks), pinned (first statement asserts GroupIndex == i, governed "
     "checks spelled gtxn i F: a read through i is the own field), allslots (every governed comparison repeated "
     "on gtxn 0..15 F: excluded when excluded for every own position; GroupIndex checks stay free). "
+    "single: the finite family of single direct checks (one comparison of one governed field with one constant, all "
+    "operators / operand orders / negation / consumers / constants) enumerated exhaustively. "
     "Protected and unprotected programs are both generated and counted. Non-trivial (per program x "
     "detector) = R-LIT says protected, the program checks a governed field of the detector, and the protecting "
     "check sits outside the entry block, under a connective/negation, or has the constant on the left; distinct "
@@ -87,9 +89,34 @@ def check(case):
     return {"nontrivial_keys": nt_keys, "features": sorted(feats), "counters": counters, "evaluations": len(names)}
 
 
+def check_single(case):
+    """single direct checks (exhaustive family): protected by the literal reading => the detector is silent"""
+    an = Analysed(case)
+    g = an.g
+    lit = Lit(g, case["items"])
+    names = case["detectors"]
+    try:
+        res = adapter.run_detectors(an.tealer, names)
+    except adapter.TealerCrash as e:
+        raise Violation("detector-crash", f"{e}\n{g.text}")
+    counters = {"protected_pairs": 0, "unprotected_pairs": 0}
+    for det in names:
+        if lit_protected(lit, det):
+            counters["protected_pairs"] += 1
+            if res[det].paths:
+                p = res[det].paths[0]
+                raise Violation("reported-although-excluded", f"{det}: single check {case['desc']} excludes the dangerous value, yet path {' -> '.join(str(b.idx) for b in p)} is reported\n{g.text}", {"detector": det})
+        else:
+            counters["unprotected_pairs"] += 1
+    return {"nontrivial": case["nt"] and counters["protected_pairs"] > 0, "key": case_hash(g.text), "features": [case["desc"].split(":")[0]], "counters": counters, "evaluations": len(names)}
+
+
 def components(tier, disabled):
     q = tier == "quick"
+    from vf.props.single_family import single_cases
+
     return {
+        "single": {"enumerate": single_cases, "check": check_single, "exhaustive": True, "shards": 16, "sample": lambda c, i: c["desc"]},
         "lsig": {"strategy": semantic_program(profile="direct", disabled=disabled, max_stmts=(12 if q else 18), mode="lsig"),
                  "check": check, "examples": 3000 if q else 60000, "sample": lambda c, i: RCFG(c).text},
         "app": {"strategy": semantic_program(profile="direct", disabled=disabled, max_stmts=(12 if q else 18), mode="app"),
